@@ -310,6 +310,18 @@ static void run_c09_future(void)
         /* second use after ABT_future_reset (nobody else uses the future now): not ready until
          * the k-th new set, callback once more, a surplus set fails again */
         ABT_OK(ABT_future_reset(F.fut));
+        if (F.k >= 2 && plan_bool()) {
+            /* a round that is abandoned half-way: some compartments are set, then the future is
+             * reset; nothing of it may survive into the next round */
+            int part = 1 + (int)plan_n((uint32_t)F.k - 1);
+            for (int i = 0; i < part; i++)
+                ABT_OK(ABT_future_set(F.fut, F.vals[7 - (i & 1)]));
+            ABT_OK(ABT_future_test(F.fut, &ready));
+            SIM_CHECK(!ready, "future:ready-before-sets", "ready after %d of %d sets", part, F.k);
+            ABT_OK(ABT_future_reset(F.fut));
+            sim_count("c09.future_resets_of_partly_filled", 1);
+        }
+        int cb_before = F.cb_calls;
         F.waits_ret = 0;
         F.cb_done = 0;
         ABT_OK(ABT_future_test(F.fut, &ready));
@@ -325,7 +337,7 @@ static void run_c09_future(void)
         ABT_OK(ABT_future_test(F.fut, &ready));
         SIM_CHECK(ready, "future:not-ready", "second round: future not ready after all compartments were set");
         if (F.with_cb && F.k > 0)
-            SIM_CHECK(F.cb_calls == 2 && F.cb_bad == 0, "future:callback-count", "second round: callback ran %d times in total (bad=%d)", F.cb_calls, F.cb_bad);
+            SIM_CHECK(F.cb_calls == cb_before + 1 && F.cb_bad == 0, "future:callback-count", "second round: callback ran %d times (bad=%d)", F.cb_calls - cb_before, F.cb_bad);
         sim_count("c09.future_reset_rounds", 1);
     }
     ABT_OK(ABT_future_free(&F.fut));
